@@ -89,6 +89,7 @@ var lineKinds = []string{
 // readerMachine builds a machine whose bufio reader plays `lines`.
 func readerMachine(p *Prog, lines []string) *Machine {
 	m := NewMachine(p, nil)
+	m.CycleCheck = true
 	installStringModels(m)
 	installFuncModels(m)
 	installUnicodeModels(m)
